@@ -15,3 +15,6 @@ pub mod transcript;
 
 pub mod dev;
 pub mod utils;
+
+#[cfg(midnight_zk_verif)]
+pub mod verif_hook;
